@@ -347,6 +347,67 @@ fn body_fast_check(slots: usize) -> impl Fn(&Ch) -> Run + Sync + Send {
   }
 }
 
+/// Worlds with a WebAssembly module that has imports of its own.
+fn body_wasm(ch: &Ch) -> Run {
+  let mut run = Run::default();
+  let kind = *ch.pick("graph_kind", &[GraphKind::All, GraphKind::CodeOnly, GraphKind::TypesOnly]);
+  let w = crate::props::c01::wasm_choices(ch);
+  let build = |roots: Option<Vec<ModuleSpecifier>>| {
+    let sched = Sched::new(SchedMode::Immediate);
+    let loader = ScriptedLoader::new(sched);
+    let root = crate::props::c01::wasm_install(&w, &loader);
+    let mut g = ModuleGraph::new(kind);
+    let r = build_graph(&mut g, roots.unwrap_or(vec![root]), &loader, BuildCfg::default(), ch);
+    (g, r)
+  };
+  let (g, r) = build(None);
+  if r.is_err() {
+    run.violate("build-did-not-finish", "deadlock", w.describe.clone());
+    return run;
+  }
+  let mut outcome = vec![];
+  for seg_roots in [vec![url("https://x/m.wasm")], vec![url("https://x/a.ts")], vec![url("https://x/a.ts"), url("https://x/m.wasm")]] {
+    if !seg_roots.iter().all(|u| g.contains(u)) {
+      continue;
+    }
+    let seg = g.segment(&seg_roots);
+    run.evals += 1;
+    let case = || json!({"world": w.describe, "graph_kind": format!("{kind:?}"), "segment_roots": seg_roots.iter().map(|r| r.as_str()).collect::<Vec<_>>(), "original": listing(&g), "segment": listing(&seg)});
+    for m in seg.modules() {
+      for (text, d) in m.dependencies() {
+        for prefer_types in [false, true] {
+          let a = seg.resolve_dependency(text, m.specifier(), prefer_types);
+          let b = g.resolve_dependency(text, m.specifier(), prefer_types);
+          if a != b {
+            run.violate(format!("segment-resolve_dependency-differs@{kind:?}"), format!("resolve_dependency({text:?}, {}, prefer_types={prefer_types}): segment {:?}, original {:?}", m.specifier(), a.map(|s| s.as_str()), b.map(|s| s.as_str())), case());
+          }
+        }
+        for t in [d.get_code(), d.get_type()].into_iter().flatten() {
+          let a = tg(seg.try_get(t));
+          let b = tg(g.try_get(t));
+          if a != b && seg_follows(kind, d, t) {
+            run.violate(format!("segment-target-differs@{kind:?}"), format!("dependency {text:?} of {} -> {t}: segment has {a}, original has {b}", m.specifier()), case());
+          }
+        }
+      }
+    }
+    if !seg_roots.iter().all(|r| g.roots.contains(r)) {
+      let (direct, r) = build(Some(seg_roots.clone()));
+      if r.is_ok() && listing(&seg) != listing(&direct) {
+        run.violate(format!("segment-differs-from-direct-build@{kind:?}:entries-differ"), format!("segment {:?} vs direct build {:?}", listing(&seg), listing(&direct)), case());
+      }
+    }
+    outcome.push(listing(&seg).len());
+  }
+  run.state_key = hash_of(&(format!("{:?}{kind:?}", w.imports), w.via_ts));
+  run.nontrivial = !w.imports.is_empty();
+  run.outcome_key = hash_of(&outcome);
+  if ch.describe() {
+    run.sample = Some(w.describe.clone());
+  }
+  run
+}
+
 pub fn prop(tier: Tier) -> Prop {
   let parts = match tier {
     Tier::Quick => vec![Part {
@@ -385,6 +446,12 @@ pub fn prop(tier: Tier) -> Prop {
       what: "every world over the core alphabet, enumerated completely: 3 specifiers (kinds TypeScript / missing / JavaScript / JSON / redirect), <= 3 edges from {import, dynamic import, import type}",
     }),
   }
+  parts.push(Part {
+    name: "wasm-imports",
+    body: Box::new(body_wasm),
+    modes: vec![Mode::Full],
+    what: "worlds with a generated WebAssembly module that has imports of its own, each graph kind: segments at the wasm module / an imported module / both vs the original and vs a direct build",
+  });
   parts.push(Part {
     name: "fast-check",
     body: Box::new(body_fast_check(2)),
